@@ -88,7 +88,7 @@ package session
 
 // ---- session state -----------------------------------------------------------------
 //@ field[C20] Session.state: guarded_by(stateMu)
-//@ field[C20] Session.LogonSettings: guarded_by(mu)
+//@ field[C20] Session.LogonSettings: owner_writes(mu, inbound, config)
 //@ field[C20] Session.errorHandler: immutable_after(OnError, newSession)
 //@ field[C20] Session.logonRequest: immutable_after(SetLogonRequest, newSession)
 //@ field[C20] Session.unmarshaller: immutable_after(SetUnmarshaller, newSession)
@@ -183,6 +183,7 @@ package session
 
 // ---- TestRequest (C14, C16, C07) ---------------------------------------------------------
 //@ closure (*Session).Run#TestRequest (data []byte) (ok bool)
+//@   role inbound
 //@   anchor TestRequestBuilder
 //@   requires sessWF(s) && sessInv(s) && !sendFailed
 //@   modifies sentN, sentAt, sendFailed, clock, s.counter.*, gOut(s.counter), gIn(s.counter)
@@ -195,6 +196,7 @@ package session
 
 // ---- Heartbeat (C16) --------------------------------------------------------------------
 //@ closure (*Session).Run#Heartbeat (data []byte) (ok bool)
+//@   role inbound
 //@   anchor HeartbeatBuilder
 //@   requires sessWF(s) && sessInv(s) && !sendFailed
 //@   modifies sentN, sentAt, sendFailed, clock, s.counter.*, gOut(s.counter), gIn(s.counter), s.state, everLogged, trigN, trigAt, routerStopped, timersStarted
@@ -207,6 +209,7 @@ package session
 
 // ---- Logout (C15, C16) --------------------------------------------------------------------
 //@ closure (*Session).Run#Logout (data []byte) (ok bool)
+//@   role inbound
 //@   anchor LogoutBuilder
 //@   requires sessWF(s) && sessInv(s) && !sendFailed
 //@   modifies sentN, sentAt, sendFailed, clock, s.counter.*, gOut(s.counter), gIn(s.counter), s.state, everLogged, trigN, trigAt, routerStopped, timersStarted
@@ -223,6 +226,7 @@ package session
 
 // ---- Logon (C06, C07, C16) ---------------------------------------------------------------
 //@ func (s *Session) checkLogonParams(incoming messages.LogonBuilder) (ok bool, tag int, reasonCode int)
+//@   role inbound
 //@   pure
 //@   requires sessWF(s) && incoming != nil
 //@   ensures[C06] @iff ok == (mhas(s.Opts.AllowedEncryptedMethods, mEncrypt(incoming)) && (s.LogonSettings.HeartBtLimits == nil || (s.LogonSettings.HeartBtLimits.Min <= mHeartBtInt(incoming) && mHeartBtInt(incoming) <= s.LogonSettings.HeartBtLimits.Max)))
@@ -231,6 +235,7 @@ package session
 // start: creates the two timers from the negotiated interval, registers the
 // refresh hooks and spawns the timer goroutines (their bodies are separate units)
 //@ func (s *Session) start() (err error)
+//@   role inbound
 //@   requires sessWF(s)
 //@   modifies timersStarted
 //@   epilogue timersStarted = timersStarted || err == nil
@@ -238,6 +243,7 @@ package session
 //@   ensures[C06,C07] s.state == old(s.state) && sentN == old(sentN) && sentAt == old(sentAt) && s.LogonSettings == old(s.LogonSettings)
 
 //@ func (s *Session) processIncSeq(incomingLogon messages.LogonBuilder)
+//@   role inbound
 //@   requires sessWF(s) && incomingLogon != nil && hdr(incomingLogon) != nil && everLogged
 //@   modifies sentN, sentAt, sendFailed, clock, s.counter.*, gOut(s.counter), gIn(s.counter)
 //@   call GetCurrSeqNum#1: witness curr = ret0
@@ -251,6 +257,7 @@ package session
 //@   ensures[C06,C07] @stable s.state == old(s.state)
 
 //@ closure (*Session).Run#Logon (data []byte) (ok bool)
+//@   role inbound
 //@   anchor LogonHandler
 //@   requires sessWF(s) && sessInv(s) && !sendFailed
 //@   modifies sentN, sentAt, sendFailed, clock, s.counter.*, gOut(s.counter), gIn(s.counter), s.state, s.LogonSettings, everLogged, trigN, trigAt, routerStopped, timersStarted
@@ -280,6 +287,7 @@ package session
 // before it may be transmitted; a failed save refuses the message
 //@ closure (*Session).setStorageCallbacks#save (msg simplefixgo.SendingMessage) (ok bool)
 //@   anchor Save
+//@   holds s.mu
 //@   requires sessWF(s) && msg != nil && hdr(msg) != nil
 //@   modifies gStored(s.messageStorage), gHas(s.messageStorage)
 //@   call Save#1: witness serr = ret
@@ -288,6 +296,7 @@ package session
 
 // ResendRequest: answered only when logged on, with exactly the stored messages b..e
 //@ closure (*Session).setStorageCallbacks#resend (data []byte) (ok bool)
+//@   role inbound
 //@   anchor Messages
 //@   requires sessWF(s) && sessInv(s) && !sendFailed
 //@   modifies sentN, sentAt, sendFailed, clock, s.counter.*, gOut(s.counter), gIn(s.counter), resentN, resentAt
@@ -338,6 +347,7 @@ package session
 
 // ---- initiating side (C06) ----------------------------------------------------------------
 //@ func (s *Session) LogonRequest() (err error)
+//@   role config
 //@   requires sessWF(s) && !sendFailed && s.logonRequest == nil
 //@   modifies sentN, sentAt, sendFailed, clock, s.counter.*, gOut(s.counter), gIn(s.counter), s.state, everLogged, trigN, trigAt, routerStopped, timersStarted
 //@   ensures[C06] err == nil && s.state == WaitingLogonAnswer
@@ -354,6 +364,7 @@ package session
 // sequence hook: once the logon exchange is over, the incoming counter follows the
 // peer's numbers; during the exchange it is left alone (processIncSeq compares it)
 //@ closure (*Session).setStorageCallbacks#seq (msg []byte) (ok bool)
+//@   role inbound
 //@   anchor SetSeqNum
 //@   requires sessWF(s)
 //@   modifies s.counter.*, gOut(s.counter), gIn(s.counter)
@@ -364,6 +375,7 @@ package session
 
 // liveness hook of start(): any inbound message refreshes the timer and ends a pending probe
 //@ closure (*Session).start#inhook (msg []byte) (ok bool)
+//@   role inbound
 //@   anchor Refresh changeState
 //@   requires s != nil && s.eventHandler != nil
 //@   modifies s.state, everLogged, trigN, trigAt, routerStopped, timersStarted, clock, utils.Timer.lastUpdate
